@@ -292,3 +292,35 @@ class TvdMeanNotImplemented(_EnumOb):
 
     def claims(self, w, S, P, part=None):
         return [('raises', flag(w, S['got'] != 'ok'))]
+
+
+class FaceVariableForms(_EnumOb):
+    """FaceVariable(mesh, scalar), FaceVariable(mesh, [vx, vy, vz]) and FaceVariable(mesh, xarr, yarr, zarr): every
+    documented constructor form is accepted on every grid class and fills the components of the grid's axes with the
+    value given FOR THAT AXIS (faces normal to axis a: shape N with N_a + 1 along a)"""
+    name = 'FaceVariable.__init__/forms_fill_the_right_components'
+    props = ('C16', 'C10', 'C14')
+
+    def region(self, w):
+        return w.interior()
+
+    def points(self, w):
+        return w.interior_points()
+
+    def setup(self, w):
+        s = w.scalar('fs')
+        vec = [w.scalar('fv%d' % a) for a in range(w.nd)]
+        out = dict(s=s, vec=vec)
+        out['k_scalar'], out['scalar'] = outcome(lambda: fac.FaceVariable(w.mesh, s))
+        out['k_vec'], out['vecv'] = outcome(lambda: fac.FaceVariable(w.mesh, list(vec)))
+        return out
+
+    def claims(self, w, S, P, part=None):
+        res = [('scalar_form_accepted', flag(w, S['k_scalar'] == 'ok')), ('list_form_accepted', flag(w, S['k_vec'] == 'ok'))]
+        if S['k_scalar'] == 'ok' and S['k_vec'] == 'ok':
+            for a in range(w.nd):
+                comp = '_' + AX[a] + 'value'
+                fidx = face_idx(P, a, 1)
+                res.append(('scalar_form_component[%s]' % AX[a], w.eq(w.at(getattr(S['scalar'], comp), fidx), S['s'])))
+                res.append(('list_form_component[%s]' % AX[a], w.eq(w.at(getattr(S['vecv'], comp), fidx), S['vec'][a])))
+        return res
